@@ -1724,7 +1724,6 @@ impl<const M0: u64, const M1: u64, const M2: u64, const M3: u64> ModInt256<M0, M
         // [v0, v1] is substantially larger and does not fit on 192 bits.
         // In such cases, we fallback to the generic code.
         if bl_nv > 208 {
-            assert!(false);
             return k.split_nonmonty_generic_vartime();
         }
 
